@@ -556,8 +556,8 @@ fn build(k: K, mut ch: Vec<E>) -> E {
 
 /// all trees with exactly n operators, n <= 2, materialised
 fn level_lists() -> [Vec<E>; 3] {
-    // leaves: an identifier, an int literal, and a string literal that looks like a field name (`a["k"]` is an index, not `a.k`)
-    let l0 = vec![E::var("a"), E::Lit(V::Int(1)), E::Lit(V::s("k"))];
+    // leaves: an identifier, an int literal, a string literal that looks like a field name, and `true` (`a["k"]` is an index, not `a.k`)
+    let l0 = vec![E::var("a"), E::Lit(V::Int(1)), E::Lit(V::s("k")), E::Lit(V::Bool(true))];
     let mut l1 = vec![];
     let mut l2 = vec![];
     let ks = kinds();
